@@ -206,7 +206,8 @@ def oracle_schedule(case) -> Result:
 @st.composite
 def real_cases(draw):
     spec = draw(ng.netspecs(ng.Profile(family=draw(st.sampled_from(['1d', '2d'])),
-                                       pads=('causal', 'same'), max_blocks=3, min_blocks=2)))
+                                       pads=('causal', 'same'), max_blocks=3, min_blocks=2,
+                                       fixtures=True)))
     masks = draw(mk.pit_masks(spec))
     return {'spec': spec, 'masks': masks, 'wseed': draw(st.integers(0, 20)),
             'vseed': draw(st.integers(0, 20)), 'strength': draw(pos),
